@@ -230,15 +230,28 @@ def m_hash(it, v):
     return it.hash_(v)
 
 
+class ExecReached(Exception):
+    """Marks the end of a path that reached exec() with symbolic source text (the obligation judges the path condition)."""
+
+
 def m_exec(it, code, g=None, l=None):
     import ast
 
-    if not isinstance(code, (str, types.CodeType)) or isinstance(code, types.CodeType):
+    from .misc import CodeStub
+
+    if isinstance(code, SStr):
+        it.event("exec-symbolic", code, g)
+        raise PyRaise(ExecReached("exec reached with symbolic source"))
+    if isinstance(code, CodeStub):
+        code = code.source
+    if not isinstance(code, str):
         raise Unsupported("exec of non-literal code")
-    it.event("exec", code)
+    it.event("exec", code, g)
     tree = ast.parse(code)
     m = PModule("<exec>")
     m.g = g if g is not None else {}
+    if l is not None and l is not g:
+        raise Unsupported("exec with separate locals")
     for st in tree.body:
         it.stmt(st, m.g, m)
     return None
